@@ -31,11 +31,19 @@ func typeDefLocked(t *Ty) view.TypeDef {
 		return td
 	}
 	td := typeDefBuild(t)
+	typeDefCache[key] = td
+	return td
+}
+
+// typeDefTrim empties the cache when it has grown large.  Called between ops only (main.go), so
+// that within one op a type and its component types always come from one generation of the cache
+// (ops compare TypeDef objects by identity).
+func typeDefTrim() {
+	typeDefMu.Lock()
+	defer typeDefMu.Unlock()
 	if len(typeDefCache) > 50000 {
 		typeDefCache = map[string]view.TypeDef{}
 	}
-	typeDefCache[key] = td
-	return td
 }
 
 func typeDefBuild(t *Ty) view.TypeDef {
